@@ -52,12 +52,14 @@ def unpackVals (bits : Nat) : Nat → Nat → List Nat
   | 0, _ => []
   | n + 1, v => v % 2 ^ bits :: unpackVals bits n (v / 2 ^ bits)
 
-/-- `Decode`: the values of one packed word (`sel = v >> 60`; `sel ≥ 16` cannot happen for a
-64-bit word, the model keeps the branch as `none`). -/
-def decodeWord (w : Nat) : Option (List Nat) :=
-  match selTable[w / 2 ^ 60]? with
+def decodeRow (row : Option (Nat × Nat)) (w : Nat) : Option (List Nat) :=
+  match row with
   | none => none
   | some (n, b) => some (if b = 0 then List.replicate n 1 else unpackVals b n w)
+
+/-- `Decode`: the values of one packed word (`sel = v >> 60`; `sel ≥ 16` cannot happen for a
+64-bit word, the model keeps the branch as `none`). -/
+def decodeWord (w : Nat) : Option (List Nat) := decodeRow (selTable[w / 2 ^ 60]?) w
 
 def decodeAll : List Nat → Option (List Nat)
   | [] => some []
